@@ -70,6 +70,7 @@ struct XOpts {
     bool check_refusal = false;    // C03: a refused send must leave counters untouched
     bool check_counters = false;   // read all counters after every call (C17)
     bool check_fd_stable = true;   // C16: xcm_fd never changes
+    bool check_ready_at_await = false;   // C16: RECEIVABLE awaited while the kernel socket is readable => xcm_fd readable at once (conv family)
     bool judge_unprovoked = false; // runs without injected connection faults: a connection that reports a terminal errno while its peer is alive and well has broken by itself
 };
 extern XOpts XO;
